@@ -143,10 +143,11 @@ class PyRepo:
             raise AnalysisError(f"anchor function missing: {rel}:{qualname}")
         return m.functions[qualname]
 
-    def inlined(self, rel, qualname):
+    def inlined(self, rel, qualname, keep=()):
         """the function with calls of small private helpers of its class /
-        module replaced by their bodies (memoised)"""
-        key = (rel, qualname)
+        module replaced by their bodies (memoised); helpers named in ``keep``
+        are left as calls"""
+        key = (rel, qualname, tuple(sorted(keep)))
         cache = self.__dict__.setdefault("_inl_cache", {})
         if key not in cache:
             mod = self.module(rel)
@@ -155,7 +156,7 @@ class PyRepo:
             if "." in qualname:
                 cname = qualname.rsplit(".", 1)[0]
                 cls = mod.classes.get(cname)
-            cache[key] = inline_helpers(mod, cls, fn)
+            cache[key] = inline_helpers(mod, cls, fn, keep=frozenset(keep))
         return cache[key]
 
     def has_func(self, rel, qualname):
@@ -367,15 +368,65 @@ def _inlinable(fn):
                                           ast.Yield, ast.YieldFrom,
                                           ast.Global, ast.Nonlocal)):
             return False
-    # `return` only as the very last statement
-    rets = [n for n in ast.walk(fn) if isinstance(n, ast.Return)]
     body = [s for s in fn.body if not (isinstance(s, ast.Expr) and isinstance(
         s.value, ast.Constant) and isinstance(s.value.value, str))]
     if not body:
         return False
-    if any(r is not body[-1] for r in rets):
+    # every `return` must be (convertible to) a tail position: the last
+    # statement, or the end of an if/else arm whose continuation can be
+    # moved into the other arm (guard clauses / early returns)
+    return _tail_returns(copy.deepcopy(body)) is not None
+
+
+def _tail_returns(stmts):
+    """``stmts`` restructured so that every ``return`` is in tail position
+    (guard clauses `if C: ...; return X` followed by more statements become
+    `if C: ...; return X` / `else: <rest>`); None when a return sits inside a
+    loop, try or with block."""
+    def has_ret(nodes):
+        return any(isinstance(n, ast.Return) for s in nodes
+                   for n in ast.walk(s))
+
+    def always_returns(block):
+        if not block:
+            return False
+        last = block[-1]
+        if isinstance(last, (ast.Return, ast.Raise)):
+            return True
+        if isinstance(last, ast.If) and last.orelse:
+            return always_returns(last.body) and always_returns(last.orelse)
         return False
-    return True
+
+    out = []
+    for i, st in enumerate(stmts):
+        rest = stmts[i + 1:]
+        if isinstance(st, ast.Return):
+            out.append(st)
+            return out          # anything after it is dead
+        if not has_ret([st]):
+            out.append(st)
+            continue
+        if not isinstance(st, ast.If):
+            return None
+        body_r, else_r = always_returns(st.body), always_returns(st.orelse)
+        if rest and body_r and not else_r:
+            st.orelse = list(st.orelse) + rest
+            rest = []
+        elif rest and else_r and not body_r:
+            st.body = list(st.body) + rest
+            rest = []
+        elif rest and not (body_r and else_r):
+            return None
+        b = _tail_returns(st.body)
+        o = _tail_returns(st.orelse) if st.orelse else []
+        if b is None or o is None:
+            return None
+        st.body, st.orelse = b, o
+        out.append(st)
+        if not rest:
+            return out
+        return out              # both arms return: rest is dead
+    return out
 
 
 def _predicate_body(body):
@@ -402,7 +453,7 @@ def _predicate_body(body):
     return None
 
 
-def inline_helpers(module, cls, fn, depth=2, _counter=[0]):
+def inline_helpers(module, cls, fn, depth=2, _counter=[0], keep=frozenset()):
     """Copy of ``fn`` in which statement-level calls of private helpers
     defined in the same class (``self._h(...)``) or module (``_h(...)``) are
     replaced by the helper's body.  Only helpers with plain parameters, no
@@ -413,6 +464,9 @@ def inline_helpers(module, cls, fn, depth=2, _counter=[0]):
 
     def callee_of(call):
         f = call.func
+        if (isinstance(f, ast.Attribute) and f.attr in keep) or (
+                isinstance(f, ast.Name) and f.id in keep):
+            return None, False
         if isinstance(f, ast.Attribute) and isinstance(f.value, ast.Name) \
                 and f.value.id == selfn and cls is not None \
                 and f.attr.startswith("_") and not f.attr.startswith("__") \
@@ -491,21 +545,36 @@ def inline_helpers(module, cls, fn, depth=2, _counter=[0]):
                 continue
             new_body.append(ren.visit(s))
         out = pre
-        if new_body and isinstance(new_body[-1], ast.Return):
-            ret = new_body.pop()
-            val = ret.value or ast.Constant(None)
+        new_body = _tail_returns(new_body)
+        if new_body is None:
+            return None
+
+        def tail_of(ret):
+            val = (ret.value if ret is not None else None) or ast.Constant(None)
             if isinstance(stmt, ast.Assign):
-                tail = ast.Assign(copy.deepcopy(stmt.targets), val)
-            elif isinstance(stmt, ast.Return):
-                tail = ast.Return(val)
-            else:
-                tail = ast.Expr(val)
-            new_body.append(ast.copy_location(tail, ret))
-        elif isinstance(stmt, ast.Assign):
-            new_body.append(ast.copy_location(ast.Assign(
-                copy.deepcopy(stmt.targets), ast.Constant(None)), stmt))
-        elif isinstance(stmt, ast.Return):
-            new_body.append(ast.copy_location(ast.Return(None), stmt))
+                return ast.Assign(copy.deepcopy(stmt.targets), val)
+            if isinstance(stmt, ast.Return):
+                return ast.Return(val)
+            return ast.Expr(val)
+
+        def close(block):
+            """replace the tail `return` of a block by the caller's action; a
+            block that falls off its end yields None"""
+            if block and isinstance(block[-1], ast.Return):
+                ret = block.pop()
+                block.append(ast.copy_location(tail_of(ret), ret))
+            elif block and isinstance(block[-1], ast.Raise):
+                pass
+            elif block and isinstance(block[-1], ast.If) and any(
+                    isinstance(n, ast.Return) for n in ast.walk(block[-1])):
+                close(block[-1].body)
+                if not block[-1].orelse:
+                    block[-1].orelse = []
+                close(block[-1].orelse)
+            elif not isinstance(stmt, ast.Expr):
+                block.append(ast.copy_location(tail_of(None), stmt))
+            return block
+        new_body = close(new_body)
         out = out + new_body
         for s in out:
             ast.fix_missing_locations(s)
@@ -658,3 +727,32 @@ def lower_ifexp_assign(fn):
                 return new
             return node
     return T().visit(fn)
+
+
+def atomic_facts(fn, test, truth):
+    """The atomic facts established by ``test`` evaluating to ``truth``:
+    a set of ('T'|'F', normalised atom text).  `not X` flips the polarity,
+    a false `A or B` / true `A and B` establishes both operands, and a flag
+    local with a single definition stands for its defining expression."""
+    out = set()
+
+    def go(e, t, depth=0):
+        if isinstance(e, ast.UnaryOp) and isinstance(e.op, ast.Not):
+            return go(e.operand, not t, depth)
+        if isinstance(e, ast.BoolOp):
+            is_and = isinstance(e.op, ast.And)
+            if is_and == t:
+                for v in e.values:
+                    go(v, t, depth)
+                return
+            out.add(("T" if t else "F", norm(e)))
+            return
+        if isinstance(e, ast.Name) and depth < 3 and fn is not None:
+            x = expand_locals(fn, e, depth=1)
+            if not isinstance(x, ast.Name) and isinstance(
+                    x, (ast.BoolOp, ast.Compare, ast.UnaryOp, ast.Call)):
+                out.add(("T" if t else "F", norm(e)))
+                return go(x, t, depth + 1)
+        out.add(("T" if t else "F", norm(e)))
+    go(test, truth)
+    return out
